@@ -35,6 +35,15 @@ def run_shard(ctx):
         fails = [(s_, m) for s_, m in relaykinds.run_case(case) if s_.startswith('C01')]
         ctx.record(repr(case), len(case['rounds']) >= 1, labels=['relay-kinds', 'kind=' + case['kind']], case=case, failures=fails)
     hyp.drive(ctx, relaykinds.case_strategy, one, ctx.n(200, 4000), salt=11)
+    # per-recipient delivery programs that never finish for one recipient while the backoff policy is giving up
+    k = 0
+    for n in (2, 3):
+        for who in range(n):
+            for backoff, nrounds in (([], 1), ([0], 2), ([0], 1)):
+                k += 1
+                if ctx.mine(k):
+                    one({'family': 'relay-kinds', 'kind': 'pipe', 'nrcpt': n, 'sender': True, 'backoff': backoff,
+                         'rounds': [{'r%d' % who: 'hang'}] * nrounds})
     qmgen.drive_histories(ctx, OWN, qmgen.restart_race_history(), ctx.n(600, 10000), nontrivial, salt=8)
     qmgen.drive_histories(ctx, OWN, qmgen.saturated_pool_history(), ctx.n(600, 10000), nontrivial, salt=9)
     qmgen.drive_histories(ctx, OWN, qmgen.announce_window_history(), ctx.n(800, 12000), nontrivial, salt=11)
